@@ -565,3 +565,7 @@ func init() {
 func init() {
 	ctl("update2 trusts the database name it is sent", "P-NIL-LOOKUP", "update2|deref map element", "client", "ovsdbClient", "update2", kExpr, "db == nil", 0, to("false"))
 }
+
+func init() {
+	ctl("MonitorAll reads the model without its lock", "L2", "MonitorAll|client.database.model read", "client", "ovsdbClient", "MonitorAll", kStmt, "db.modelMutex.RLock()", 0, del)
+}
